@@ -165,7 +165,8 @@ type scriptOps struct {
 	cfgHist          []sumworld.HeadLabel // heads ever stored
 	viol             []core.Violation
 	unscriptedRemote int
-	lastTl           string // timeline of the lookup response served last (schedules: unscripted tile reads follow it)
+	secKeys          map[int]bool // keys whose lookup ended in the security error since the client (re)started
+	lastTl           string       // timeline of the lookup response served last (schedules: unscripted tile reads follow it)
 	keyReads         int
 	gate             func(op, file string) // optional scheduling gate (C14)
 	faultsServed     int
@@ -668,9 +669,18 @@ func checkLookupResult(o *scriptOps, w *sumworld.World, k int, lines []string, e
 		// (a repeated lookup of the same key returns the cached error of the first one, so any
 		// earlier report of this run counts)
 		o.mu.Lock()
-		got := len(o.sec) > 0
+		if o.secKeys == nil {
+			o.secKeys = map[int]bool{}
+		}
+		cached := o.secKeys[k] // an earlier lookup of this key by this client failed the same way: the error is the cached one
+		o.secKeys[k] = true
+		reports := o.sec[secBefore:]
+		if cached && len(reports) == 0 {
+			reports = o.sec
+		}
+		got := len(reports) > 0
 		best := 0
-		for _, m := range o.sec {
+		for _, m := range reports {
 			if n := o.countNotes(m); n > best {
 				best = n
 			}
@@ -751,6 +761,9 @@ func replayBehaviour(c *core.Case, in *behaviourIn) ([]core.Violation, bool) {
 		switch h.Op {
 		case "Restart":
 			delete(clients, h.C)
+			ops.mu.Lock()
+			ops.secKeys = nil
+			ops.mu.Unlock()
 		case "LookupStart":
 			cn := in.ClientOf[h.T]
 			cl := clients[cn]
